@@ -50,7 +50,7 @@ fn printed(n: u64, base: Base) -> String {
     format!("{}{}", prefix(base, false), digits(n, base, true))
 }
 
-fn ns(tier: Tier) -> Vec<u64> {
+pub fn ns(tier: Tier) -> Vec<u64> {
     let mut v: Vec<u64> = Vec::new();
     let top = tier.pick(1_100u64, 70_000u64);
     v.extend(0..=top);
@@ -65,7 +65,7 @@ fn ns(tier: Tier) -> Vec<u64> {
     // that happens to be a string of hex digits, alone and with a digit in front of / behind it:
     // '0x1aed' must be the number 6893, not '0x' followed by 1 AED
     for w in hex_words() {
-        for t in [w.clone(), format!("1{}", w), format!("2{}", w), format!("{}7", w), format!("10{}", w)] {
+        for t in [w.clone(), format!("1{}", w), format!("2{}", w), format!("{}7", w), format!("10{}", w), format!("a1{}", w), format!("f2{}", w), format!("b9{}5", w), format!("1a1{}", w)] {
             if let Ok(n) = u64::from_str_radix(&t, 16) {
                 v.push(n);
             }
